@@ -41,15 +41,19 @@ Expected(e) == Moved(e) + e.rc.gas * e.tx.price
 \* class of a ChargedExactly / PoolAccounting failure: the known refund accounting -- a successful storage-clearing
 \* call whose sender (pool) got back at most the refund cap of half the used gas -- or the input class
 RefundShape(e, short, unit) == e.tx.pay = "clear" /\ e.rc.status = 1 /\ short > 0 /\ short <= (e.rc.gas \div 2) * unit
-InputClass(e) == {e.tx.to, e.tx.pay, IF e.rc.status = 1 THEN "ok" ELSE "failed"}
+InputClass(e) == {e.tx.to, e.tx.pay, IF e.rc.status = 1 THEN "ok" ELSE "failed", e.vtag}
+\* ... or the legacy gas of a failed staking transaction: the whole limit is reported as used, the intrinsic gas is charged
+\* (the protocol version is part of the discriminator: this is the rule of YouV1..YouV3 only)
+LegacyShape(e, charged) == e.tx.to = "staking" /\ e.rc.status = 0 /\ e.rc.gas = e.tx.limit /\ e.tx.limit > Intrinsic(e.tx)
+                           /\ charged = Intrinsic(e.tx)
 Reasons(e) == (IF WrongNonce(e) THEN {"nonce"} ELSE {}) \cup (IF CannotPay(e) THEN {"gas_funds"} ELSE {})
-              \cup (IF Exhausted(e) THEN {"block_gas"} ELSE {})
+              \cup (IF Exhausted(e) THEN {"block_gas"} ELSE {}) \cup {e.vtag}
 
 \* ---- clause antecedents (for the vacuity counters) and verdicts
 Ante(c, e) ==
    CASE c = "RefusedChangesNothing" -> e.ev = "Apply" /\ UpFront(e)
      [] c = "RevertedUnchanged"     -> e.ev = "Apply" /\ ~Applied(e) /\ e.mode = "miner"
-     [] c = "SenderAuthentic"       -> e.ev \in {"Sender", "Resolve"}
+     [] c = "SenderAuthentic"       -> e.ev \in {"Sender", "Resolve", "SenderV"}
      [] OTHER                       -> e.ev = "Apply" /\ Applied(e)
 
 Holds(c, e) ==
@@ -80,6 +84,9 @@ Holds(c, e) ==
           \* "A transaction's sender is the holder of the key that signed exactly its fields for this network; changing any
           \*  field, the network id or using a high-s signature changes the sender or is rejected"
           IF e.ev = "Sender" THEN (IF e.mut = "none" THEN e.res = "same" ELSE e.res \in {"err", "other"})
+          \* "changing any field, the network id ..." for the V of the signature, exhaustively: of every V presented with the
+          \* same fields, R and S, only the one the signature was made with names the key holder
+          ELSE IF e.ev = "SenderV" THEN ((e.res = "same") <=> (e.v = e.orig)) /\ e.res \in {"same", "err", "other"}
           \* the same sentence for one transaction OBJECT asked repeatedly, under the signer of this network ("home") and a
           \* signer for another network id ("foreign"): only the home signer may name the key holder, only for the unmutated
           \* transaction, and every answer is the one a freshly decoded object gives (it does not depend on what was asked before)
@@ -89,12 +96,18 @@ Holds(c, e) ==
 
 Disc(c, e) ==
    CASE c = "RefusedChangesNothing" -> Reasons(e)
-     [] c = "ChargedExactly" -> IF RefundShape(e, Expected(e) - Paid(e), e.tx.price) THEN {"gas_refund"} ELSE InputClass(e)
+     [] c = "ChargedExactly" -> IF RefundShape(e, Expected(e) - Paid(e), e.tx.price) THEN {"gas_refund", e.vtag}
+                                ELSE IF LegacyShape(e, Paid(e) \div e.tx.price) /\ Paid(e) % e.tx.price = 0 THEN {"staking_failed_gas", e.vtag}
+                                ELSE InputClass(e)
      [] c = "PoolAccounting" -> IF e.hdr[2] = e.hdr[1] + e.rc.gas /\ e.pool[1] >= e.tx.limit
-                                   /\ RefundShape(e, e.rc.gas - (e.pool[1] - e.pool[2]), 1) THEN {"gas_refund"} ELSE InputClass(e)
+                                   /\ RefundShape(e, e.rc.gas - (e.pool[1] - e.pool[2]), 1) THEN {"gas_refund", e.vtag}
+                                ELSE IF e.hdr[2] = e.hdr[1] + e.rc.gas /\ e.pool[1] >= e.tx.limit /\ LegacyShape(e, e.pool[1] - e.pool[2])
+                                THEN {"staking_failed_gas", e.vtag}
+                                ELSE InputClass(e)
      [] c = "SenderAuthentic" -> IF e.ev = "Sender" THEN {e.mut, e.res}
+                                 ELSE IF e.ev = "SenderV" THEN {"vsweep", e.res, IF e.v = e.orig THEN "original_v" ELSE "other_v"}
                                  ELSE {e.mut, e.res, "signer_" \o e.signer, IF e.step > 1 THEN "asked_before" ELSE "fresh_object"}
-     [] c = "RevertedUnchanged" -> {e.err}
+     [] c = "RevertedUnchanged" -> {e.err, e.vtag}
      [] OTHER -> InputClass(e)
 
 Init == l = 1 /\ viol = {} /\ fired = [c \in Clauses |-> 0]
@@ -103,7 +116,7 @@ Step ==
    /\ l <= Len(TraceLog)
    /\ l' = l + 1
    /\ LET e == TraceLog[l] IN
-      IF e.ev \in {"Apply", "Sender", "Resolve"} /\ "panic" \notin DOMAIN e
+      IF e.ev \in {"Apply", "Sender", "Resolve", "SenderV"} /\ "panic" \notin DOMAIN e
       THEN LET A == { c \in Clauses : Ante(c, e) } IN
            /\ fired' = [c \in Clauses |-> IF c \in A THEN fired[c] + 1 ELSE fired[c]]
            /\ viol' = viol \cup { <<c, Disc(c, e), l>> : c \in { k \in A : ~Holds(k, e) } }
